@@ -1,5 +1,6 @@
 (* Lemmas about the ::/64 prefix wildcard (C13) and the ::/0 route wildcard (C15) of Model/Wildcard.v. *)
-From CR Require Import Model.Wildcard Proofs.WildcardSort.
+From CR Require Import Model.Wildcard.
+From CR Require Import Proofs.WildcardSort.
 From Coq Require Import Lia Permutation Sorted.
 Local Open Scope N_scope.
 
